@@ -161,7 +161,7 @@ VARIANTS = [
     ('c18-benign-sorted', 'C18', E97, "        ret = list(set(err_codes))\n        ret.sort()\n        return ret\n\n    def visit_gs_post", "        ret = sorted(set(err_codes))\n        return ret\n\n    def visit_gs_post", OK, None),
     # ---------------------------------------------------------------- C19
     ('c19-amp-last', 'C19', HTM, "    output = output.replace('&', '&amp;')\n    output = output.replace(' ', '&nbsp;')", "    output = output.replace(' ', '&nbsp;')\n    output = output.replace('&', '&amp;')", B, 'C19.R2'),
-    ('c19-unescape-value', 'C19', HTM, "                ele_str = escape_html_chars(seg_data.get_value(ref_des))\n                if i in ele_pos_map.keys():", "                ele_str = seg_data.get_value(ref_des)\n                if i in ele_pos_map.keys():", B, 'C19.R1'),
+    ('c19-unescape-value', 'C19', HTM, "                ele_str = escape_html_chars(comp.format())\n                if i in ele_pos_map.keys():", "                ele_str = comp.format()\n                if i in ele_pos_map.keys():", B, 'C19.R1'),
     ('c19-filter', 'C19', HTM, "                if err_cde != '3':", "                if err_cde not in ('3', '8'):", B, 'C19.R4'),
     ('c19-skip-seg', 'C19', DOC, "            html.gen_seg(seg, src, err_node_list)", "            if err_node_list or valid:\n                html.gen_seg(seg, src, err_node_list)", B, 'C19.R3'),
     ('c19-unescape-msg', 'C19', HTM, "(escape_html_chars(err_str), err_cde))", "(err_str, err_cde))", B, 'C19.R1'),
